@@ -159,7 +159,7 @@ class Atomizer:
         if isinstance(value, (ast.BoolOp, ast.Compare)) or (isinstance(value, ast.UnaryOp) and isinstance(value.op, ast.Not)):
             self.bdefs[n] = self._formula_no_self(value, n)
             self.alias.pop(n, None)
-        elif isinstance(value, (ast.Call, ast.Attribute, ast.Subscript, ast.BinOp)) and not any(
+        elif isinstance(value, (ast.Call, ast.Attribute, ast.Subscript, ast.BinOp, ast.ListComp, ast.SetComp, ast.GeneratorExp)) and not any(
                 isinstance(x, ast.Name) and x.id == n for x in ast.walk(value)):
             self.alias[n] = "(" + self.canon(value) + ")" if isinstance(value, ast.BinOp) else self.canon(value)
             self.bdefs.pop(n, None)
@@ -401,8 +401,12 @@ class PathConditions:
             # evaluate the right-hand side with the versions *before* the store
             tmp = Atomizer(self.at.rename, self.at.const_names)
             tmp.versions, tmp.alias, tmp.bdefs = dict(self.at.versions), dict(self.at.alias), dict(self.at.bdefs)
+            old = (tmp.alias.get(st.targets[0].id), tmp.bdefs.get(st.targets[0].id))
             tmp.define(st.targets[0].id, st.value)
             pre = (tmp.alias.get(st.targets[0].id), tmp.bdefs.get(st.targets[0].id))
+            # a value `define` does not name (literal, self-referential update, ...) must not inherit the previous binding's name
+            if pre == old:
+                pre = (None, None)
         if stored:
             self.at.bump(stored)
         if pre is not None:
